@@ -534,6 +534,32 @@ class Evaluator:
             if isinstance(v, ChanV):
                 return TV(z3.BoolVal(v.id is None), BOOL)
             raise SpecError("isnil of %r" % (v,))
+        if name == "ntrace":
+            base = len(old.trace) if old is not None else 0
+            n = len(cur.trace) - base
+            if args:
+                kind = args[0][1]
+                n = sum(1 for ev in cur.trace[base:] if ev[0] == kind)
+            return TV(n, UNT)
+        if name in ("tracearg", "tracekind"):
+            base = len(old.trace) if old is not None else 0
+            i = self.eval(args[0], env, cur, old)
+            if i.ty != UNT:
+                raise SpecError("tracearg index must be a literal")
+            if base + i.v >= len(cur.trace):
+                return TV(z3.BoolVal(False), BOOL) if name == "tracekind" else TV(0, UNT)
+            ev = cur.trace[base + i.v]
+            if name == "tracekind":
+                return TV(z3.BoolVal(ev[0] == args[1][1]), BOOL)
+            j = self.eval(args[1], env, cur, old).v
+            v = ev[1 + j]
+            if is_z3(v) and z3.is_bv(v):
+                return TV(v, ("int", v.size(), False))
+            if is_z3(v) and z3.is_bool(v):
+                return TV(v, BOOL)
+            if is_z3(v) and z3.is_fp(v):
+                return TV(v, ("f32",))
+            return TV(v, ("ref",))
         if name == "bool2u8":
             b = self.as_bool(self.eval(args[0], env, cur, old))
             return TV(z3.If(b, z3.BitVecVal(1, 8), z3.BitVecVal(0, 8)), GOTY["uint8"])
